@@ -405,9 +405,127 @@ fn cli_layer(col: &Collector) {
     col.layer("X-cli", n, true, json!({}));
 }
 
+/// joins over hostile joined files: non-admitted lines, NOT NULL violations, NULL keys, invalid UTF-8, empty files,
+/// duplicate keys; main rows with NULL keys and NOT NULL violations; every statement kind
+fn join_layer(ctx: &Ctx, col: &Collector) {
+    let defs = "CREATE TABLE t('k=(\\S+)' => k TEXT, 'x=(\\S+)' => x INT NOT NULL, 'm=(m)' => m TEXT);\nCREATE TABLE u('k=(\\S+)' => k TEXT, 'y=(\\S+)' => y INT NOT NULL, 'z=(\\S+)' => z REAL);\nCREATE TABLE w('y=(\\S+)' => y INT DEFAULT 7, 'k=(\\S+)' => k TEXT NOT NULL);";
+    let tables = sut::make_tables(defs).expect("join defs");
+    let main_lines: [&[u8]; 6] = [b"m=m k=a x=1", b"m=m k=b x=9223372036854775807", b"m=m x=2", b"m=m k=a", b"garbage", b"\xffk=a x=3"];
+    let joined_lines: [&[u8]; 7] = [b"k=a y=1 z=NaN", b"k=a y=-9223372036854775808", b"k=b", b"y=5 z=inf", b"nothing", b"\xff", b""];
+    let stmts = |p: &str, jt: &str| -> Vec<String> {
+        vec![
+            format!("SELECT * FROM t INNER JOIN {jt}::'{p}' ON t.k = {jt}.k", jt = jt, p = p),
+            format!("SELECT t.k, y + x, m FROM t OUTER JOIN {jt}::'{p}' ON {jt}.k = t.k WHERE y IS NULL OR y < 0", jt = jt, p = p),
+            format!("SELECT t.k, COUNT(*), SUM(y), MAX(x) FROM t INNER JOIN {jt}::'{p}' ON t.k = {jt}.k GROUP BY t.k HAVING SUM(y) != 0", jt = jt, p = p),
+            format!("SELECT DISTINCT y FROM t OUTER JOIN {jt}::'{p}' ON t.k = {jt}.k LIMIT 2", jt = jt, p = p),
+            format!("SELECT x FROM t INNER JOIN {jt}::'{p}' ON t.x = {jt}.y", jt = jt, p = p),
+        ]
+    };
+    let k = joined_lines.len() as u64;
+    let maxlen = ctx.tier.pick(2, 3) as u32;
+    let total = seq_count(k, maxlen);
+    let (done, complete) = par_for_budget(ctx, total, 4, |idx| {
+        let seq = seq_decode(idx, k, maxlen);
+        let mut jf: Vec<u8> = Vec::new();
+        for (i, li) in seq.iter().enumerate() {
+            jf.extend_from_slice(joined_lines[*li as usize]);
+            if i + 1 < seq.len() || idx % 2 == 0 {
+                jf.push(b'\n');
+            }
+        }
+        let tmp = sut::TempFiles::new(&[jf.as_slice()]);
+        for jt in ["u", "w"] {
+            for text in stmts(&tmp.paths[0], jt) {
+                let st = match sut::parse(&text) {
+                    Ok(s) => s,
+                    Err(_) => continue,
+                };
+                for msel in 0..4usize {
+                    let mut mf: Vec<u8> = Vec::new();
+                    for (i, l) in main_lines.iter().enumerate() {
+                        if msel == 0 || i % 2 == msel % 2 || (msel == 3 && i < 4) {
+                            mf.extend_from_slice(l);
+                            mf.push(b'\n');
+                        }
+                    }
+                    let r = sut::run_files(&tables, &st, &[mf.as_slice()], FileRunOpts::default());
+                    col.eval(1);
+                    match &r {
+                        Outcome::Panic(p) => col.fail(fail(panic_signature(p), format!("`{}` main-selection {} joined {:?} panicked: {}", text.replace(&tmp.paths[0], "<joined>"), msel, crate::gen::hex(&jf), p.msg), json!({"layer": "J", "statement": text.replace(&tmp.paths[0], "<joined>"), "joined_hex": crate::gen::hex(&jf), "main_selection": msel}), json!("output or error"), json!({"panic": p.msg, "at": format!("{}:{}", p.file, p.line)}), jf.len() as u64)),
+                        Outcome::Ok(fr) => {
+                            if fr.result.is_err() {
+                                col.nontrivial(h64(&("J", idx, jt, &text, msel)));
+                            }
+                        }
+                        _ => {}
+                    }
+                }
+            }
+        }
+        if idx % 37 == 5 {
+            col.sample(json!({"layer": "J", "joined_file_hex": crate::gen::hex(&jf), "statements": "5 join statements x 2 joined tables x 4 main files"}));
+        }
+    });
+    col.layer("J-joins over hostile joined files", done, complete, json!({"joined_line_alphabet": 7, "max_len": maxlen}));
+}
+
+/// no silent wrap: a number outside the 64-bit INT range must become NULL / an error, never another number
+fn wrap_layer(col: &Collector) {
+    let tables = sut::make_tables("CREATE TABLE j({ .a } => a INT, { .a } => r REAL, { .a } => s TEXT CONVERT, { .m } => m TEXT);\nCREATE TABLE g('a=(\\S+)' => a INT, 'a=(\\S+)' => s TEXT, 'm=(m)' => m TEXT);").unwrap();
+    let toks = ["9223372036854775808", "18446744073709551615", "18446744073709551616", "-9223372036854775809", "99999999999999999999999", "9223372036854775807", "-9223372036854775808"];
+    let mut n = 0;
+    for t in toks {
+        let exact: Option<i64> = t.parse::<i64>().ok();
+        let probes: Vec<(String, String, &Tables)> = vec![
+            ("SELECT a, m FROM j".into(), format!("{{\"a\":{},\"m\":\"m\"}}", t), &tables),
+            ("SELECT a, m FROM g".into(), format!("m=m a={}", t), &tables),
+            ("SELECT s::int, m FROM g".into(), format!("m=m a={}", t), &tables),
+            (format!("SELECT '{}'::int, m FROM g", t), "m=m".into(), &tables),
+            ("SELECT a + 0, a * 1, a - 0, m FROM g".into(), format!("m=m a={}", t), &tables),
+            ("SELECT SUM(a), MIN(a), MAX(a), AVG(a) FROM g".into(), format!("m=m a={}", t), &tables),
+        ];
+        for (text, line, tb) in probes {
+            let st = match sut::parse(&text) {
+                Ok(s) => s,
+                Err(_) => continue, // a literal out of range may be rejected by the parser
+            };
+            let r = sut::run_batch(tb, &st, &[line.as_str()]);
+            n += 1;
+            col.eval(1);
+            match &r {
+                Outcome::Panic(p) => col.fail(fail(panic_signature(p), format!("`{}` on {:?} panicked: {}", text, line, p.msg), json!({"layer": "W", "statement": text, "line": line}), json!("value or error"), json!(p.msg), 0)),
+                Outcome::Ok(tbl) => {
+                    for row in &tbl.rows {
+                        for v in row {
+                            if let sut::RVal::Int(i) = v {
+                                if Some(*i) != exact {
+                                    col.fail(fail(
+                                        format!("silent-wrap:{}", text.split(" FROM").next().unwrap_or("").replace(t, "<n>")),
+                                        format!("`{}` on {:?}: the out-of-range number {} silently became {}", text, line, t, i),
+                                        json!({"layer": "W", "statement": text, "line": line}),
+                                        json!("NULL, an error, or the exact number"),
+                                        json!(i),
+                                        t.len() as u64,
+                                    ));
+                                }
+                            }
+                        }
+                    }
+                    col.nontrivial(h64(&("W", &text, &line)));
+                }
+                _ => {}
+            }
+        }
+    }
+    col.layer("W-no silent wrap of out-of-range integers", n, true, json!({"numbers": toks}));
+    col.sample(json!({"layer": "W", "statement": "SELECT a, m FROM j", "line": "{\"a\":9223372036854775808,\"m\":\"m\"}"}));
+}
+
 pub fn run(ctx: &Ctx) -> i32 {
     let col = Collector::new();
     let tables = sut::make_tables(DEF).expect("C09 definition");
+    join_layer(ctx, &col);
+    wrap_layer(&col);
     expr_layer(ctx, &col, &tables);
     agg_layer(ctx, &col, &tables);
     format_layer(&col, &tables);
